@@ -419,6 +419,71 @@ def decide(pid, tier, seed, replay, t0):
                 known_lines.append("KNOWN-FINDING: property=%s %s [%s]" % (pid, k["what"], l))
             else:
                 failures.append((l, msg))
+    # ---- interpreter modes: the same operations in a child interpreter that strips `assert` (python -O) must give the
+    # same answers (a check that only exists as an assertion is not a check); rejections are sampled first
+    mode_diffs = []
+    try:
+        idx_err = [i for i, o in enumerate(impl_out) if not o.startswith("ok")]
+        idx_ok = [i for i, o in enumerate(impl_out) if o.startswith("ok")]
+        rng2 = random.Random(seed + 77)
+        n_err, n_ok = (150, 60) if tier == "quick" else (1500, 600)
+        pick = sorted(set(rng2.sample(idx_err, min(n_err, len(idx_err))) + rng2.sample(idx_ok, min(n_ok, len(idx_ok)))))
+        budget = 0.0
+        pick = [i for i in pick if len(lines[i]) < 20000]
+        if pick:
+            code = ("import sys; sys.path.insert(0, %r)\nimport impl\n"
+                    "for l in sys.stdin.read().split('\\n'):\n"
+                    "    if l: print(impl.run(l), flush=True)\n" % HERE)
+            t_m = time.time()
+            pr = subprocess.run([sys.executable, "-O", "-c", code], input="\n".join(lines[i] for i in pick) + "\n",
+                                stdout=subprocess.PIPE, stderr=subprocess.PIPE, text=True,
+                                timeout=600 if tier == "quick" else 3000, cwd=HERE)
+            outs_o = pr.stdout.split("\n")[:len(pick)]
+            if len(outs_o) == len(pick) and pr.returncode == 0:
+                # the child runs only the sampled lines, so state left behind by unsampled lines is missing there:
+                # a difference counts only if the line, re-run alone in THIS interpreter, still gives the in-process answer
+                for i, o2 in zip(pick, outs_o):
+                    if o2 != impl_out[i] and impl.run(lines[i]) == impl_out[i]:
+                        mode_diffs.append((full_lines[i], impl_out[i], o2))
+            info["optimized_interpreter_cases"] = len(pick)
+            info["optimized_interpreter_s"] = round(time.time() - t_m, 1)
+    except subprocess.TimeoutExpired:
+        info["optimized_interpreter_cases"] = "timeout (not a violation)"
+    for l, o1, o2 in mode_diffs[:20]:
+        try:
+            msg = mod.oracle(l, o2)
+        except Exception:
+            msg = None
+        if msg and not mod.known_match(l, o2, msg, known):
+            failures.append((l, "under `python -O` (assertions stripped): " + msg))
+    # a mere difference between the two interpreter modes that the property's oracle does not object to is recorded,
+    # not reported (the unchanged code has one: from_wif checks the compression flag byte with an `assert`)
+    info["optimized_interpreter_differences"] = len(mode_diffs)
+    # ---- alternative input forms: the same values handed over as bytearray / one-shot iterators (forms the unchanged
+    # library accepts) must give the same answers
+    try:
+        rng3 = random.Random(seed + 99)
+        cand = [i for i in range(len(lines)) if len(lines[i]) < 20000]
+        pick = sorted(rng3.sample(cand, min(len(cand), 400 if tier == "quick" else 4000)))
+        n_alt = 0
+        for i in pick:
+            o2 = impl.run_alt(lines[i])
+            n_alt += 1
+            if o2 != impl_out[i] and impl.run(lines[i]) == impl_out[i]:
+                try:
+                    msg = mod.oracle(full_lines[i], o2)
+                except Exception:
+                    msg = None
+                if msg and not mod.known_match(full_lines[i], o2, msg, known):
+                    failures.append((full_lines[i], "with byte strings passed as bytearray and paths as one-shot "
+                                                    "iterators: " + msg))
+                else:
+                    info["alternative_form_differences"] = info.get("alternative_form_differences", 0) + 1
+                if len(failures) > 20:
+                    break
+        info["alternative_form_cases"] = n_alt
+    except Exception as e:      # noqa
+        info["alternative_form_cases"] = "error %r" % e
     # ---- something broke: search harder for a concrete failing input
     searched = 0
     probed = 0
@@ -456,6 +521,10 @@ def decide(pid, tier, seed, replay, t0):
         "known_findings_reported": len(set(known_lines)), "build_s": info.get("build_s"),
         "proof_problems": problems, "deep_search_candidates": searched, "literal_probe_cases": probed,
         "exhaustive": False,
+        "optimized_interpreter_cases": info.get("optimized_interpreter_cases", 0),
+        "alternative_form_cases": info.get("alternative_form_cases", 0),
+        "optimized_interpreter_differences": info.get("optimized_interpreter_differences", 0),
+        "alternative_form_differences": info.get("alternative_form_differences", 0),
     }
     coverage.update(extra_info)
     if "leanchecker" in info:
